@@ -1,6 +1,8 @@
 """C11 — clone() is a faithful, independent deep copy."""
 import random, copy
 from vlib.common import *
+sys.path.insert(0, os.path.join(ROOT, 'gen'))
+import tables
 from pygen import entities as E
 from checks.C13 import split_top, all_vars
 
@@ -38,7 +40,7 @@ def own_resets(rng, c):
 def run(chk, replay=None):
     lib = build_lib()
     hx = build_hx('hx_clone', lib, extra_src=[os.path.join(ROOT, 'harness', 'hx_entity.h')])
-    leandir, ok, out, changed = standard_lean(chk, 'C11')
+    leandir, ok, out, changed = standard_lean(chk, 'C11', {'Cellml/Generated/CloneFields.lean': tables.clone_table(REPO)})
     chk.assumptions += [
         'objects carry the epoch of the call that created them; independence is tied to the code by pointer disjointness of the two reachable object graphs (all mutable state lives in the reachable entity objects)',
         'content = the wire dump (every attribute the API exposes, resets by index into their component, whether an order is set); variables that name units of the model hold units with the content of the model\'s (parser / linkUnits situation)',
